@@ -22,6 +22,7 @@ import LfsModel.Track
 import LfsModel.TrackSeq
 import LfsModel.PushModel
 import LfsModel.PrePush
+import LfsModel.PushReport
 import LfsModel.CredCache
 import LfsModel.Gen
 import LfsModel.GenApi
@@ -438,6 +439,9 @@ def parseRefs (s : String) : Option (List PushM.Ref) :=
 def sortNat (l : List Nat) : List Nat := l.foldr (fun x acc => (acc.takeWhile (· ≤ x)) ++ [x] ++ (acc.dropWhile (· ≤ x))) []
 
 def c03 : List String → String
+  | ["report", m, a, e, u, v] =>
+    let b := fun (x : String) => x == "1"
+    if PushReport.ok ⟨b m, b a, b e, b u, b v⟩ then "ok" else "fail"
   | ["excl", c, a] => match parseRefs c, parseRefs a with
     | some cached, some actual =>
       String.intercalate "," (sortStr ((PushM.excluded cached actual).map toString))
